@@ -34,20 +34,47 @@ def rangeLines (lines : List (List Nat)) (from_ to : Nat) : Outcome (List Nat) :
   | .err e => .err e
   | .panic w => .panic w
 
+/-- the merge pass of `FmtDiffs`: a fragment starting before the previous (merged) one ends is
+folded into it.  `l` is `merged[last]`; what precedes it in `merged` is already emitted. -/
+def mergeInto (l : Edit) : List Edit → List Edit
+  | [] => [l]
+  | d :: ds =>
+    if d.fromLine < l.toLine then
+      mergeInto ⟨l.fromLine, max l.toLine d.toLine, l.newText ++ d.newText⟩ ds
+    else l :: mergeInto d ds
+
+def mergeFrags : List Edit → List Edit
+  | [] => []
+  | d :: ds => mergeInto d ds
+
+/-- the gap test: `FromLine > lastEnd+1 || (FromLine == lastEnd+1 && lines[lastEnd] != "")`;
+`lines[lastEnd]` is an index expression -/
+def gapNeeded (lines : List (List Nat)) (lastEnd fromLine : Nat) : Outcome Bool :=
+  if fromLine > lastEnd + 1 then .ok true
+  else if fromLine = lastEnd + 1 then
+    match lines[lastEnd]? with
+    | none => .panic "index out of range"
+    | some l => .ok (l ≠ [])
+  else .ok false
+
 /-- the loop of `FmtDiffs` after the first fragment (`lastEnd` is a line number from here on) -/
 def fmtDiffsLoop (lines : List (List Nat)) : List Edit → Nat → List Edit → Outcome (List Edit)
   | [], _, out => .ok out
   | d :: ds, lastEnd, out =>
-    let out1 := if d.fromLine > lastEnd + 1 then out ++ [⟨lastEnd, d.fromLine, [cNL]⟩] else out
-    match rangeLines lines d.fromLine d.toLine with
+    match gapNeeded lines lastEnd d.fromLine with
     | .panic w => .panic w
     | .err e => .err e
-    | .ok existing =>
-      let out2 := if existing ≠ d.newText then out1 ++ [d] else out1
-      fmtDiffsLoop lines ds d.toLine out2
+    | .ok gap =>
+      let out1 := if gap then out ++ [⟨lastEnd, d.fromLine, [cNL]⟩] else out
+      match rangeLines lines d.fromLine d.toLine with
+      | .panic w => .panic w
+      | .err e => .err e
+      | .ok existing =>
+        let out2 := if existing ≠ d.newText then out1 ++ [d] else out1
+        fmtDiffsLoop lines ds d.toLine out2
 
-/-- `FmtDiffs` given the source lines and the fragments of `collectFmtFragments` -/
-def fmtDiffs (lines : List (List Nat)) : List Edit → Outcome (List Edit)
+/-- the edit loop of `FmtDiffs` over the merged fragments -/
+def fmtDiffsMerged (lines : List (List Nat)) : List Edit → Outcome (List Edit)
   | [] => .ok []
   | d :: ds =>
     let out1 := if d.fromLine > 0 then [⟨0, d.fromLine, []⟩] else []
@@ -57,6 +84,10 @@ def fmtDiffs (lines : List (List Nat)) : List Edit → Outcome (List Edit)
     | .ok existing =>
       let out2 := if existing ≠ d.newText then out1 ++ [d] else out1
       fmtDiffsLoop lines ds d.toLine out2
+
+/-- `FmtDiffs` given the source lines and the fragments of `collectFmtFragments` -/
+def fmtDiffs (lines : List (List Nat)) (all : List Edit) : Outcome (List Edit) :=
+  fmtDiffsMerged lines (mergeFrags all)
 
 /-! ## Applying edits (LSP `TextEdit`s with `character = 0`)
 
